@@ -10,6 +10,11 @@ Part 3 (several templates in one process): one source text compiled under severa
 other, and rendered again with other data; one bytes object rendered by templates of different encodings.
 Part 4 (histories of values): values that are equal but print differently, one after the other; values that change
 between two renderings.  Expected outputs of parts 3 and 4 are literals built from the property, never a rendering.
+Part 5 (several encodings in ONE rendering): a part created with encoding b looked up by name from a document created with
+encoding a (top level, block bodies, expression call, two parts, three levels, HTML / subclass / String, passed as keyword /
+mapping / client attribute / default), every template inserting bytes of its own encoding.
+Part 6 (histories of one template object): created with an encoding, then munge / manage_edit / raw+cook with new, equal and
+empty text, recompiled, given defaults, copied, pickled, rendered as a part - rendered with bytes and text after every step.
 Correspondence: part 1 on the Lean interpreter model (utf-8 and latin-1 templates).
 """
 import json
@@ -577,6 +582,286 @@ def part4(res, r, rounds=1):
         one(v, w, 'changed ' + type(v).__name__)
 
 
+# ----------------------------------------------------------------------------
+# part 5: templates of DIFFERENT encodings in one rendering.  A part (created with encoding b) is looked up by name from a
+# document (created with encoding a) - at the top level, inside block bodies, called from an expression, two parts side by
+# side, three levels deep, across the template classes - and every template inserts bytes of ITS OWN encoding.  The
+# expectation is a literal: the document's text around the part's text (both written down from the inserted texts).
+
+# name, source of the document, expected text from (so = the document's own text, pi = the text of the part,
+# p2 = the text of the second part)
+OUTER_FORMS = [
+    ('alone', '<dtml-var part>', lambda so, pi, p2: pi),
+    ('var', 'A<dtml-var part>B', lambda so, pi, p2: 'A%sB' % pi),
+    ('if', '<dtml-if part>-<dtml-var part>-</dtml-if>', lambda so, pi, p2: '-%s-' % pi),
+    ('else', '<dtml-if zero>T<dtml-else>-<dtml-var part></dtml-if>.', lambda so, pi, p2: '-%s.' % pi),
+    ('in', '<dtml-in seq>(<dtml-var part>)</dtml-in>', lambda so, pi, p2: ('(%s)' % pi) * 2),
+    ('with', '<dtml-with wmap mapping>[<dtml-var part>]</dtml-with>', lambda so, pi, p2: '[%s]' % pi),
+    ('let', '<dtml-let z=one>[<dtml-var part>]</dtml-let>', lambda so, pi, p2: '[%s]' % pi),
+    ('try', '<dtml-try>[<dtml-var part>]<dtml-except>H</dtml-try>', lambda so, pi, p2: '[%s]' % pi),
+    ('try-finally', '<dtml-try>B<dtml-finally><dtml-var part>F</dtml-try>', lambda so, pi, p2: 'B%sF' % pi),
+    ('expr-call', '[<dtml-var expr="part(None, _)">]', lambda so, pi, p2: '[%s]' % pi),
+    ('own-bytes', '<dtml-var ox>|<dtml-var part>|&dtml-ox;|<dtml-in oseq><dtml-var sequence-item>,</dtml-in>',
+     lambda so, pi, p2: '%s|%s|%s|%s,%s,' % (so, pi, _q(so), so, so)),
+    ('own-bytes-in', '<dtml-in seq>&dtml-ox;<dtml-var part><dtml-var ox>;</dtml-in>',
+     lambda so, pi, p2: ('%s%s%s;' % (_q(so), pi, so)) * 2),
+    ('two-parts', '<dtml-var part>+<dtml-var part2>+<dtml-var part>', lambda so, pi, p2: '%s+%s+%s' % (pi, p2, pi)),
+    ('three-levels', '<dtml-var ox>(<dtml-var mid>)', lambda so, pi, p2: '%s(M%sM%s)' % (so, pi, p2)),
+]
+OUTER_STRING_FORMS = [
+    ('string-var', '[%(part)s]', lambda so, pi, p2: '[%s]' % pi),
+    ('string-in-own', '%(ox)s%(in seq)[(%(part)s)%(in)]%(ox)s', lambda so, pi, p2: so + ('(%s)' % pi) * 2 + so),
+]
+PART2_SOURCE = '<<dtml-var y2>|&dtml-y2;>'
+MID_SOURCE = 'M<dtml-var part>M<dtml-var part2>'
+
+
+def part5(res, r, outer_per_inner=None):
+    from DocumentTemplate import HTML, String
+
+    class SubHTML(HTML):
+        """a second template class with the same syntax"""
+
+    styles = ('keyword', 'mapping', 'client', 'default')
+    inner_sources = [(HTML, SubHTML, n, s, f) for n, s, f in SHARED_SOURCES] + \
+                    [(String, String, n, s, f) for n, s, f in STRING_SOURCES]
+    outer_forms = [(HTML, n, s, f) for n, s, f in OUTER_FORMS] + [(String, n, s, f) for n, s, f in OUTER_STRING_FORMS]
+    pairs = [(a, b) for a in ENC_LABELS for b in ENC_LABELS]          # equal encodings too: nothing may depend on a != b
+    k = 0
+    for a, b in pairs:
+        texts_a = [s for s in SHARED_TEXTS if encodable(s, real_enc(a))]
+        texts_b = [s for s in SHARED_TEXTS if encodable(s, real_enc(b))]
+        for cls_i, cls_i2, iname, isrc, ifn in inner_sources:
+            forms_ = list(outer_forms)
+            if outer_per_inner:
+                forms_ = [forms_[(k + j * 5) % len(forms_)] for j in range(outer_per_inner)]
+            for cls_o, oname, osrc, ofn in forms_:
+                k += 1
+                c = ENC_LABELS[k % len(ENC_LABELS)]                   # the encoding of the second part / the middle level
+                texts_c = [s for s in SHARED_TEXTS if encodable(s, real_enc(c))]
+                so, si, s2 = texts_a[k % len(texts_a)], texts_b[(k // 2) % len(texts_b)], texts_c[(k // 3) % len(texts_c)]
+                style = styles[k % len(styles)]
+                res.count('two encodings in one rendering')
+                res.nt(('nested', oname, iname, a, b))
+                want = ofn(so, ifn(si), '<%s|%s>' % (s2, _q(s2)))
+                for as_bytes in (True, False, True):
+                    res.evaluations += 1
+                    inner = (cls_i if k % 2 else cls_i2)(isrc, encoding=b) if b else (cls_i if k % 2 else cls_i2)(isrc)
+                    part2 = HTML(PART2_SOURCE, encoding=c) if c else HTML(PART2_SOURCE)
+                    if oname == 'three-levels':
+                        # the middle level has the encoding c, the innermost b, the outermost a
+                        mid = HTML(MID_SOURCE, encoding=c) if c else HTML(MID_SOURCE)
+                    else:
+                        mid = None
+                    conv = (lambda s, e: s.encode(real_enc(e))) if as_bytes else (lambda s, e: s)
+                    ns = ns_for(conv(si, b), HTML(SUB_SOURCE, encoding=b) if b else HTML(SUB_SOURCE))
+                    ns.update(ox=conv(so, a), oseq=[conv(so, a), conv(so, a)], y2=conv(s2, c), part2=part2)
+                    if mid is not None:
+                        ns['mid'] = mid
+                    templ = {'part': inner}
+                    try:
+                        if style == 'default':
+                            outer = cls_o(osrc, templ, encoding=a) if a else cls_o(osrc, templ)
+                            got = outer(**ns)
+                        else:
+                            outer = cls_o(osrc, encoding=a) if a else cls_o(osrc)
+                            ns.update(templ)
+                            if style == 'mapping':
+                                got = outer(None, ns)
+                            elif style == 'client':
+                                got = outer(Holder(**ns))
+                            else:
+                                got = outer(**ns)
+                    except Exception as e:  # noqa
+                        got = 'raised %r' % (e,)
+                    if got != want or not isinstance(got, str):
+                        res.oracle_fail.append({
+                            'case': {'kind': 'nested-templates', 'document': '%s(%r, encoding=%r)' % (cls_o.__name__, osrc, a),
+                                     'part': '%s(%r, encoding=%r)' % (type(inner).__name__, isrc, b),
+                                     'part2': 'HTML(%r, encoding=%r)' % (PART2_SOURCE, c),
+                                     'mid': mid is not None and 'HTML(%r, encoding=%r)' % (MID_SOURCE, c),
+                                     'sub (used by the part)': 'HTML(%r, encoding=%r)' % (SUB_SOURCE, b),
+                                     'values as': 'bytes of the encoding of the template that inserts them' if as_bytes else 'text',
+                                     'document text (ox)': so, 'part text (x)': si, 'part2 text (y2)': s2,
+                                     'part passed as': style},
+                            'what': 'got %r, expected %r (every template decodes the bytes it inserts with the encoding it was '
+                                    'created with)' % (got, want)})
+
+
+# ----------------------------------------------------------------------------
+# part 6: histories of ONE template object.  Created with an encoding, then edited / recompiled / copied / pickled /
+# given other defaults, step by step; after every step it is rendered with bytes and with text.  "The encoding the
+# template was created with" holds for the whole life of the object; the expected text is the literal that belongs to
+# the source the object has at that moment.
+
+def part6(res, r, histories=2, length=6):
+    import copy
+    import pickle
+    from DocumentTemplate import HTML, String
+
+    global _C19SubHTML
+    if _C19SubHTML is None:
+        _C19SubHTML = _make_sub_html()
+
+    html_pool = [(n, s, f) for n, s, f in SHARED_SOURCES] + [('empty', '', lambda s: ''), ('text-only', 'plain', lambda s: 'plain')]
+    string_pool = list(STRING_SOURCES) + [('empty', '', lambda s: ''), ('string-adjacent', '%(x)s%(x)s', lambda s: s + s)]
+
+    # step name -> function(t, new_source) -> template to go on with; 'new' says whether the source changes
+    def st_munge_text(t, src):
+        t.munge(src)
+        return t
+
+    def st_manage_edit(t, src):
+        t.manage_edit(src)
+        return t
+
+    def st_manage_edit_request(t, src):
+        t.manage_edit(src, REQUEST=None)
+        return t
+
+    def st_munge_text_mapping(t, src):
+        t.munge(src, {'k': 1})
+        return t
+
+    def st_munge_text_kw(t, src):
+        t.munge(src, k=2)
+        return t
+
+    def st_munge_kw_text(t, src):
+        t.munge(source_string=src)
+        return t
+
+    def st_raw_cook(t, src):
+        t.raw = src
+        t.cook()
+        return t
+
+    def st_munge_nothing(t, src):
+        t.munge()
+        return t
+
+    def st_munge_mapping(t, src):
+        t.munge(None, {'k': 3})
+        return t
+
+    def st_munge_kw(t, src):
+        t.munge(k=4)
+        return t
+
+    def st_cook(t, src):
+        t.cook()
+        return t
+
+    def st_default(t, src):
+        t.default(k=5)
+        t.var(k2=6)
+        return t
+
+    def st_copy(t, src):
+        return copy.copy(t)
+
+    def st_deepcopy(t, src):
+        return copy.deepcopy(t)
+
+    def st_pickle(t, src):
+        return pickle.loads(pickle.dumps(t))
+
+    def st_setstate(t, src):
+        n = type(t).__new__(type(t))
+        n.__dict__.update(t.__getstate__())
+        return n
+
+    def st_str(t, src):
+        str(t), t.read(), t.read_raw()
+        return t
+
+    def st_other_template(t, src):
+        # templates of the other encodings are created and rendered in between
+        for e in ENC_LABELS:
+            o = type(t)(t.read_raw(), encoding=e) if e else type(t)(t.read_raw())
+            try:
+                o(**ns_for('x', HTML(SUB_SOURCE)))
+            except Exception:  # noqa
+                pass
+        return t
+
+    def st_as_part(t, src):
+        # rendered as a part of documents of every encoding (its own bytes, of its own encoding, come later in check)
+        for e in ENC_LABELS:
+            o = HTML('A<dtml-var part>B', encoding=e) if e else HTML('A<dtml-var part>B')
+            try:
+                o(part=t, **ns_for('x', HTML(SUB_SOURCE)))
+            except Exception:  # noqa
+                pass
+        return t
+
+    changing = [('munge(text)', st_munge_text), ('manage_edit(text)', st_manage_edit),
+                ('manage_edit(text, REQUEST=None)', st_manage_edit_request), ('munge(text, {k: 1})', st_munge_text_mapping),
+                ('munge(text, k=2)', st_munge_text_kw), ('munge(source_string=text)', st_munge_kw_text),
+                ('raw = text; cook()', st_raw_cook)]
+    keeping = [('munge()', st_munge_nothing), ('munge(None, {k: 3})', st_munge_mapping), ('munge(k=4)', st_munge_kw),
+               ('cook()', st_cook), ('default(k=5); var(k2=6)', st_default), ('copy.copy', st_copy),
+               ('copy.deepcopy', st_deepcopy), ('pickle round trip', st_pickle), ('__getstate__ into a new object', st_setstate),
+               ('str() / read()', st_str), ('templates of the other encodings created and rendered', st_other_template),
+               ('rendered as a part of documents of every encoding', st_as_part)]
+    steps = [(n, f, 'new') for n, f in changing] + [(n, f, 'same') for n, f in changing] + [(n, f, None) for n, f in keeping]
+
+    def check(t, label, cur, s, history):
+        name, src, fn = cur
+        want = fn(s)
+        for val in (s.encode(real_enc(label)), s):
+            res.evaluations += 1
+            try:
+                got = t(**ns_for(val, HTML(SUB_SOURCE, encoding=label) if label else HTML(SUB_SOURCE)))
+            except Exception as e:  # noqa
+                got = 'raised %r' % (e,)
+            if got != want or not (isinstance(got, str) or want == ''):
+                res.oracle_fail.append({
+                    'case': {'kind': 'object-history', 'history of this template object, oldest first': list(history),
+                             'source now': src, 'x': repr(val), 'text': s, 'created with encoding': label},
+                    'what': 'got %r, expected %r (x decoded with the encoding the template was created with)' % (got, want)})
+
+    k = 0
+    for cls, pool in ((HTML, html_pool), (_C19SubHTML, html_pool), (String, string_pool)):
+        for label in ENC_LABELS:
+            texts = [s for s in SHARED_TEXTS if encodable(s, real_enc(label))]
+            plans = []
+            # every kind of step once, in a shuffled order, cut into histories; plus random histories
+            allsteps = list(steps)
+            r.shuffle(allsteps)
+            for i in range(0, len(allsteps), length):
+                plans.append(allsteps[i:i + length])
+            for _ in range(histories):
+                plans.append([r.choice(steps) for _ in range(length)])
+            for plan in plans:
+                k += 1
+                cur = pool[k % len(pool)]
+                t = cls(cur[1], encoding=label) if label else cls(cur[1])
+                history = ['%s(%r, encoding=%r)' % (cls.__name__, cur[1], label) if label else '%s(%r)' % (cls.__name__, cur[1])]
+                res.count('object history')
+                res.nt(('object-history', cls.__name__, label, tuple(n for n, _, _ in plan)))
+                check(t, label, cur, texts[k % len(texts)], history)
+                for j, (sname, fn, kind) in enumerate(plan):
+                    if kind == 'new':
+                        cur = pool[(k + 7 * j + r.randrange(len(pool))) % len(pool)]
+                    t = fn(t, cur[1])
+                    history.append(sname + (' [text = %r]' % cur[1] if kind else ''))
+                    check(t, label, cur, texts[(k + j) % len(texts)], history)
+
+
+def _make_sub_html():
+    from DocumentTemplate import HTML
+
+    class C19SubHTML(HTML):
+        """a second template class with the same syntax (module level: it has to be picklable)"""
+    C19SubHTML.__module__ = __name__
+    C19SubHTML.__qualname__ = '_C19SubHTML'
+    return C19SubHTML
+
+
+_C19SubHTML = None
+
+
 def run(res, tier, have_driver):
     r = common.rng('C19')
     res.rule = ('part 1: %d texts (ASCII, Latin-1, C1, BMP, astral, HTML specials, empty) x 4 template encodings x 22 insertion '
@@ -593,15 +878,26 @@ def run(res, tier, have_driver):
                 'zeros, 2^53, 10^20, non-finite, containers of them, exception arguments) in forward, reverse and random order '
                 'and mixed across families, through %d forms on a kept template and a new one, passed as keyword / mapping / '
                 'client attribute, as one dtml-in table and side by side; lists, dicts, objects, exceptions and bytearrays '
-                'changed between two renderings: output == str() form of the value as it is now; non-trivial = distinct '
-                '(encoding, form, non-ASCII text) / value kinds / (source, encoding pair) / value orders'
+                'changed between two renderings: output == str() form of the value as it is now; part 5 (several encodings in '
+                'one rendering): every source of part 3 as a part created with encoding b, looked up by name from %d document '
+                'forms created with encoding a (all 25 ordered pairs; top level, if / else / in / with / let / try / finally '
+                'bodies, expression call, two parts of different encodings, three levels, String in HTML and HTML in String; '
+                'part passed as keyword / mapping / client attribute / default), the document, the part, the second part and '
+                'the middle level each inserting bytes of its own encoding: output == literal built from the inserted texts; '
+                'part 6 (histories of one template object): HTML / subclass / String created under each of the 5 encodings, then '
+                'munge / manage_edit / raw+cook with new, equal and empty text (positional, keyword, with defaults), munge() / '
+                'cook() / defaults only, copy / deepcopy / pickle / __getstate__, other templates in between, rendered as a '
+                'part: after every step bytes and text give the literal that belongs to the current source; non-trivial = distinct '
+                '(encoding, form, non-ASCII text) / value kinds / (source, encoding pair) / value orders / (document form, part, encoding pair) / object histories'
                 % (len(TEXTS), len(SHARED_SOURCES), len(STRING_SOURCES), len(RAW_BYTES), len(value_families()),
-                   len(VALUE_FORMS)))
+                   len(VALUE_FORMS), len(OUTER_FORMS) + len(OUTER_STRING_FORMS)))
     part1(res, tier, have_driver, r)
     part2(res, r)
     thorough = tier == 'thorough'
     part3(res, common.rng('C19-shared'), pairs_per_source=None if thorough else 8)
     part4(res, common.rng('C19-values'), rounds=6 if thorough else 1)
+    part5(res, common.rng('C19-nested'), outer_per_inner=None if thorough else 4)
+    part6(res, common.rng('C19-histories'), histories=12 if thorough else 5)
     # the same table once more: whatever the earlier parts left behind in the process must not show
     part2(res, r)
     res.partial.append('bytes through the full Var.render path (html_quote with another option, fmt=html-quote, '
@@ -609,7 +905,10 @@ def run(res, tier, have_driver):
     res.assumptions += ['model codecs: UTF-8 and Latin-1 (round trips proved); cp1252 and utf-16 templates are compared on the '
                         'implementation only', 'interpreter model validated (not verified) against the real classes',
                         'parts 3 and 4 (several template objects / histories of values in one process) are decided on the '
-                        'implementation only: the model renders every case from a fresh state']
+                        'implementation only: the model renders every case from a fresh state',
+                        'parts 5 and 6 (templates of different encodings in one rendering, edit / copy / pickle histories of one '
+                        'template object) are decided on the implementation only: a model case has one encoding and no object '
+                        'identity']
 
 
 def search_more(res, tier):
@@ -619,6 +918,8 @@ def search_more(res, tier):
     part2(res2, r)
     part3(res2, r)
     part4(res2, r, rounds=6)
+    part5(res2, r)
+    part6(res2, r, histories=12)
     return res2.oracle_fail
 
 
